@@ -20,6 +20,9 @@
 #include <type_traits>
 #include <vector>
 
+// lazy variant of ctx.check(): the message expression is evaluated only on failure (the checks sit in per-value loops)
+#define PBT_CK(ctx, cond, ...) ((cond) ? true : ((ctx).fail(__VA_ARGS__), false))
+
 namespace c32 {
 
 static const int kK = 16;      // words per tape segment of the C32 harness
@@ -138,19 +141,19 @@ template <class F> inline void checkFloatString(const std::string& s, pbt::Ctx& 
     ctx.label(std::string("accept:") + tn + ":" + r.cls);
     bool threw = false; F out2 = 0;
     if (ok || throwPath) { try { SimTK::String(s).convertTo<F>(out2); } catch (const std::exception&) { threw = true; } } else threw = true;
-    if (!ctx.check(threw == !ok, std::string("convertTo<") + tn + ">(" + show(s) + ") " + (threw ? "threw" : "did not throw") + " although tryConvertTo returned " + (ok ? "true" : "false"))) return;
+    if (!PBT_CK(ctx, threw == !ok, std::string("convertTo<") + tn + ">(" + show(s) + ") " + (threw ? "threw" : "did not throw") + " although tryConvertTo returned " + (ok ? "true" : "false"))) return;
     if (r.trailingSite && ctx.known(kTrailing)) {
         ctx.label("excluded:trailing-garbage");
         // still demanded: if accepted, the value is that of the literal prefix
-        if (ok && !r.prefixOverflow) ctx.check(sameBits(out, r.prefixVal), std::string("tryConvertTo<") + tn + ">(" + show(s) + ") accepted with value " + pbt::str(out) + " != value of its literal prefix " + pbt::str(r.prefixVal));
+        if (ok && !r.prefixOverflow) PBT_CK(ctx, sameBits(out, r.prefixVal), std::string("tryConvertTo<") + tn + ">(" + show(s) + ") accepted with value " + pbt::str(out) + " != value of its literal prefix " + pbt::str(r.prefixVal));
         return;
     }
-    if (r.v == Unjudged) { if (ok) ctx.check(sameBits(out, r.val), std::string("tryConvertTo<") + tn + ">(" + show(s) + ") = " + pbt::str(out)); return; }
+    if (r.v == Unjudged) { if (ok) PBT_CK(ctx, sameBits(out, r.val), std::string("tryConvertTo<") + tn + ">(" + show(s) + ") = " + pbt::str(out)); return; }
     if (r.v == Accept) {
-        if (!ctx.check(ok, std::string("tryConvertTo<") + tn + ">(" + show(s) + ") refused a string that denotes the value " + pbt::str(r.val))) return;
-        ctx.check(sameBits(out, r.val), std::string("tryConvertTo<") + tn + ">(" + show(s) + ") = " + pbt::str(out) + ", reference " + pbt::str(r.val));
+        if (!PBT_CK(ctx, ok, std::string("tryConvertTo<") + tn + ">(" + show(s) + ") refused a string that denotes the value " + pbt::str(r.val))) return;
+        PBT_CK(ctx, sameBits(out, r.val), std::string("tryConvertTo<") + tn + ">(" + show(s) + ") = " + pbt::str(out) + ", reference " + pbt::str(r.val));
     } else {
-        ctx.check(!ok, std::string("tryConvertTo<") + tn + ">(" + show(s) + ") returned true (value " + pbt::str(out) + ") for a string that is not a " + tn + " literal [" + r.cls + "]");
+        PBT_CK(ctx, !ok, std::string("tryConvertTo<") + tn + ">(" + show(s) + ") returned true (value " + pbt::str(out) + ") for a string that is not a " + tn + " literal [" + r.cls + "]");
     }
 }
 template <class T> inline void checkIntString(const std::string& s, pbt::Ctx& ctx, const char* tn, bool throwPath = true) {
@@ -159,12 +162,12 @@ template <class T> inline void checkIntString(const std::string& s, pbt::Ctx& ct
     ctx.label(std::string("accept:int:") + r.cls);
     bool threw = false; T out2 = 0;
     if (ok || throwPath) { try { SimTK::String(s).convertTo<T>(out2); } catch (const std::exception&) { threw = true; } } else threw = true;
-    if (!ctx.check(threw == !ok, std::string("convertTo<") + tn + ">(" + show(s) + ") throw/no-throw disagrees with tryConvertTo")) return;
+    if (!PBT_CK(ctx, threw == !ok, std::string("convertTo<") + tn + ">(" + show(s) + ") throw/no-throw disagrees with tryConvertTo")) return;
     if (r.v == Unjudged) return;
     if (r.v == Accept) {
-        if (!ctx.check(ok, std::string("tryConvertTo<") + tn + ">(" + show(s) + ") refused a valid literal")) return;
-        ctx.check(out == r.val, std::string("tryConvertTo<") + tn + ">(" + show(s) + ") = " + pbt::str(+out) + ", reference " + pbt::str(+r.val));
-    } else ctx.check(!ok, std::string("tryConvertTo<") + tn + ">(" + show(s) + ") returned true (value " + pbt::str(+out) + ") for a string that is not a " + tn + " literal [" + r.cls + "]");
+        if (!PBT_CK(ctx, ok, std::string("tryConvertTo<") + tn + ">(" + show(s) + ") refused a valid literal")) return;
+        PBT_CK(ctx, out == r.val, std::string("tryConvertTo<") + tn + ">(" + show(s) + ") = " + pbt::str(+out) + ", reference " + pbt::str(+r.val));
+    } else PBT_CK(ctx, !ok, std::string("tryConvertTo<") + tn + ">(" + show(s) + ") returned true (value " + pbt::str(+out) + ") for a string that is not a " + tn + " literal [" + r.cls + "]");
 }
 inline void checkBoolString(const std::string& s, pbt::Ctx& ctx, bool throwPath = true) {
     RefBool r = refBool(s);
@@ -172,16 +175,16 @@ inline void checkBoolString(const std::string& s, pbt::Ctx& ctx, bool throwPath 
     ctx.label(std::string("accept:bool:") + r.cls);
     bool threw = false; bool out2 = false;
     if (ok || throwPath) { try { SimTK::String(s).convertTo<bool>(out2); } catch (const std::exception&) { threw = true; } } else threw = true;
-    if (!ctx.check(threw == !ok && ok == okB, "convertTo<bool>(" + show(s) + ") throw/no-throw disagrees with tryConvertTo")) return;
+    if (!PBT_CK(ctx, threw == !ok && ok == okB, "convertTo<bool>(" + show(s) + ") throw/no-throw disagrees with tryConvertTo")) return;
     if (r.trailingSite && ctx.known(kTrailing)) {
         ctx.label("excluded:trailing-garbage");
-        if (ok) ctx.check(r.prefixAccept && out == r.prefixVal && outB == r.prefixVal, "tryConvertTo<bool>(" + show(s) + ") accepted with a value different from its literal prefix");
+        if (ok) PBT_CK(ctx, r.prefixAccept && out == r.prefixVal && outB == r.prefixVal, "tryConvertTo<bool>(" + show(s) + ") accepted with a value different from its literal prefix");
         return;
     }
     if (r.v == Accept) {
-        if (!ctx.check(ok, "tryConvertTo<bool>(" + show(s) + ") refused a valid bool literal")) return;
-        ctx.check(out == r.val && outB == r.val, "tryConvertTo<bool>(" + show(s) + ") gave the wrong value / left the output unset");
-    } else ctx.check(!ok, "tryConvertTo<bool>(" + show(s) + ") returned true for a string that is not a bool literal [" + std::string(r.cls) + "]");
+        if (!PBT_CK(ctx, ok, "tryConvertTo<bool>(" + show(s) + ") refused a valid bool literal")) return;
+        PBT_CK(ctx, out == r.val && outB == r.val, "tryConvertTo<bool>(" + show(s) + ") gave the wrong value / left the output unset");
+    } else PBT_CK(ctx, !ok, "tryConvertTo<bool>(" + show(s) + ") returned true for a string that is not a bool literal [" + std::string(r.cls) + "]");
 }
 
 // which: 0 double 1 float 2 bool 3 int 4 unsigned 5 long long 6 unsigned long long 7 short 8 unsigned short 9 long 10 unsigned long
@@ -208,7 +211,7 @@ inline void checkStrconvBytes(const std::string& s, pbt::Ctx& ctx) {
     unsigned h = 2166136261u; for (unsigned char c : s) h = (h ^ c) * 16777619u;
     for (int w = 0; w < kNumStrTypes && !ctx.failed; ++w) checkString(w, s, ctx, (int)(h % kNumStrTypes) == w);
     // String / std::string targets take the whole text including white space
-    if (!ctx.failed) { SimTK::String o; bool ok = SimTK::String(s).tryConvertTo<SimTK::String>(o); ctx.check(ok && std::string(o) == s, "tryConvertTo<String>(" + show(s) + ") must copy the whole string"); }
+    if (!ctx.failed) { SimTK::String o; bool ok = SimTK::String(s).tryConvertTo<SimTK::String>(o); PBT_CK(ctx, ok && std::string(o) == s, "tryConvertTo<String>(" + show(s) + ") must copy the whole string"); }
 }
 
 // ------------------------------------------------------------------ byte-level oracle 2: bytes as an unformatted stream
@@ -220,32 +223,33 @@ inline std::vector<std::string> tokens(const std::string& s) {
 // reference verdict for one token read as double (tokens never contain white space)
 inline void checkUnformattedBytes(const std::string& s, pbt::Ctx& ctx) {
     std::vector<std::string> tk = tokens(s);
-    bool hasTrailing = false; size_t firstBad = tk.size();
+    bool hasTrailing = false, hasUnjudged = false; size_t firstBad = tk.size();
     std::vector<double> vals;
     for (size_t i = 0; i < tk.size(); ++i) {
         RefFloat<double> r = refFloat<double>(tk[i]);
         if (r.trailingSite) hasTrailing = true;
-        if (r.v != Accept) { if (firstBad == tk.size()) firstBad = i; if (r.v == Unjudged) hasTrailing = true; }   // unjudged tokens: no verdict on the stream
+        if (r.v != Accept) { if (firstBad == tk.size()) firstBad = i; if (r.v == Unjudged) hasUnjudged = true; }   // unjudged tokens: no verdict on the stream
         vals.push_back(r.val);
     }
     bool excluded = hasTrailing && ctx.known(kTrailing);
     if (excluded) ctx.label("excluded:trailing-garbage");
+    if (hasUnjudged) { ctx.label("unf:unjudged-token"); excluded = true; }
     ctx.label(tk.empty() ? "unf:no-token" : firstBad == tk.size() ? "unf:all-valid" : "unf:some-invalid");
     // (a) scalar: first token
     { std::istringstream in(s); double d = -7; bool ok = SimTK::readUnformatted(in, d);
       if (!excluded) {
         bool want = !tk.empty() && firstBad > 0;
-        if (!ctx.check(ok == want, "readUnformatted<double> on stream " + show(s) + " returned " + (ok ? "true" : "false") + ", reference " + (want ? "true" : "false"))) return;
-        if (ok && !ctx.check(sameBits(d, vals[0]), "readUnformatted<double> on " + show(s) + " = " + pbt::str(d) + ", reference " + pbt::str(vals[0]))) return;
-        if (!ok && !ctx.check(in.fail(), "readUnformatted<double> returned false without setting failbit")) return;
+        if (!PBT_CK(ctx, ok == want, "readUnformatted<double> on stream " + show(s) + " returned " + (ok ? "true" : "false") + ", reference " + (want ? "true" : "false"))) return;
+        if (ok && !PBT_CK(ctx, sameBits(d, vals[0]), "readUnformatted<double> on " + show(s) + " = " + pbt::str(d) + ", reference " + pbt::str(vals[0]))) return;
+        if (!ok && !PBT_CK(ctx, in.fail(), "readUnformatted<double> returned false without setting failbit")) return;
       } }
     // (b) Vec<3>: exactly the first three tokens, failure if fewer / invalid
     { std::istringstream in(s); SimTK::Vec3 v(-7); bool ok = SimTK::readUnformatted(in, v);
       if (!excluded) {
         bool want = tk.size() >= 3 && firstBad >= 3;
-        if (!ctx.check(ok == want, "readUnformatted<Vec3> on stream " + show(s) + " returned " + (ok ? "true" : "false") + ", reference " + (want ? "true" : "false"))) return;
-        if (ok) for (int i = 0; i < 3; ++i) if (!ctx.check(sameBits(v[i], vals[i]), "readUnformatted<Vec3> element " + std::to_string(i) + " wrong for " + show(s))) return;
-        if (ok && tk.size() > 3 && firstBad > 3) { double nx = -7; bool ok2 = SimTK::readUnformatted(in, nx); if (!ctx.check(ok2 && sameBits(nx, vals[3]), "token after a Vec3 was not left in the stream for " + show(s))) return; }
+        if (!PBT_CK(ctx, ok == want, "readUnformatted<Vec3> on stream " + show(s) + " returned " + (ok ? "true" : "false") + ", reference " + (want ? "true" : "false"))) return;
+        if (ok) for (int i = 0; i < 3; ++i) if (!PBT_CK(ctx, sameBits(v[i], vals[i]), "readUnformatted<Vec3> element " + std::to_string(i) + " wrong for " + show(s))) return;
+        if (ok && tk.size() > 3 && firstBad > 3) { double nx = -7; bool ok2 = SimTK::readUnformatted(in, nx); if (!PBT_CK(ctx, ok2 && sameBits(nx, vals[3]), "token after a Vec3 was not left in the stream for " + show(s))) return; }
       } }
     // (c) Array_<double> / Vector_<double>: all tokens until eof
     { std::istringstream in(s); SimTK::Array_<double> a; a.push_back(-7); bool ok = SimTK::readUnformatted(in, a);
@@ -256,26 +260,26 @@ inline void checkUnformattedBytes(const std::string& s, pbt::Ctx& ctx) {
       if (trailingWs && ctx.known(kArrayWs)) { ctx.label("excluded:array-trailing-white-space"); exclC = true; }
       if (!exclC) {
         bool want = firstBad == tk.size();
-        if (!ctx.check(ok == want && okv == want, "readUnformatted<Array_/Vector_<double>> on " + show(s) + " returned " + (ok ? "true" : "false") + "/" + (okv ? "true" : "false") + ", reference " + (want ? "true" : "false"))) return;
+        if (!PBT_CK(ctx, ok == want && okv == want, "readUnformatted<Array_/Vector_<double>> on " + show(s) + " returned " + (ok ? "true" : "false") + "/" + (okv ? "true" : "false") + ", reference " + (want ? "true" : "false"))) return;
         if (ok) {
-            if (!ctx.check((size_t)a.size() == tk.size() && (size_t)vv.size() == tk.size(), "readUnformatted<Array_<double>> read " + std::to_string(a.size()) + " elements from " + std::to_string(tk.size()) + " tokens")) return;
-            for (size_t i = 0; i < tk.size(); ++i) if (!ctx.check(sameBits(a[(int)i], vals[i]) && sameBits(vv[(int)i], vals[i]), "readUnformatted<Array_<double>> element " + std::to_string(i) + " wrong for " + show(s))) return;
+            if (!PBT_CK(ctx, (size_t)a.size() == tk.size() && (size_t)vv.size() == tk.size(), "readUnformatted<Array_<double>> read " + std::to_string(a.size()) + " elements from " + std::to_string(tk.size()) + " tokens")) return;
+            for (size_t i = 0; i < tk.size(); ++i) if (!PBT_CK(ctx, sameBits(a[(int)i], vals[i]) && sameBits(vv[(int)i], vals[i]), "readUnformatted<Array_<double>> element " + std::to_string(i) + " wrong for " + show(s))) return;
             // accepted => write/read is a fixed point
             std::ostringstream o; SimTK::writeUnformatted(o, a); std::istringstream in3(o.str()); SimTK::Array_<double> b; bool ok3 = SimTK::readUnformatted(in3, b);
-            if (!ctx.check(ok3 && b.size() == a.size(), "writeUnformatted(Array_) output not readable: " + show(o.str()))) return;
-            for (int i = 0; i < a.size(); ++i) if (!ctx.check(sameBits(a[i], b[i]), "write/read of Array_<double> changed element " + std::to_string(i))) return;
-            std::ostringstream o2; SimTK::writeUnformatted(o2, b); if (!ctx.check(o.str() == o2.str(), "writeUnformatted not a fixed point")) return;
+            if (!PBT_CK(ctx, ok3 && b.size() == a.size(), "writeUnformatted(Array_) output not readable: " + show(o.str()))) return;
+            for (int i = 0; i < a.size(); ++i) if (!PBT_CK(ctx, sameBits(a[i], b[i]), "write/read of Array_<double> changed element " + std::to_string(i))) return;
+            std::ostringstream o2; SimTK::writeUnformatted(o2, b); if (!PBT_CK(ctx, o.str() == o2.str(), "writeUnformatted not a fixed point")) return;
         }
       } }
     // (d) String tokens, int tokens, bool tokens: first token only
     if (!tk.empty()) {
-        { std::istringstream in(s); SimTK::String t; bool ok = SimTK::readUnformatted(in, t); if (!ctx.check(ok && std::string(t) == tk[0], "readUnformatted<String> did not return the first token of " + show(s))) return; }
+        { std::istringstream in(s); SimTK::String t; bool ok = SimTK::readUnformatted(in, t); if (!PBT_CK(ctx, ok && std::string(t) == tk[0], "readUnformatted<String> did not return the first token of " + show(s))) return; }
         { std::istringstream in(s); int iv = -7; bool ok = SimTK::readUnformatted(in, iv); RefInt<int> r = refInt<int>(tk[0]);
-          if (r.v != Unjudged) { if (!ctx.check(ok == (r.v == Accept), "readUnformatted<int> on " + show(s) + " returned " + (ok ? "true" : "false"))) return; if (ok && !ctx.check(iv == r.val, "readUnformatted<int> value wrong for " + show(s))) return; } }
+          if (r.v != Unjudged) { if (!PBT_CK(ctx, ok == (r.v == Accept), "readUnformatted<int> on " + show(s) + " returned " + (ok ? "true" : "false"))) return; if (ok && !PBT_CK(ctx, iv == r.val, "readUnformatted<int> value wrong for " + show(s))) return; } }
         { std::istringstream in(s); bool bv = false; bool ok = SimTK::readUnformatted(in, bv); RefBool r = refBool(tk[0]);
-          if (!(r.trailingSite && ctx.known(kTrailing))) { if (!ctx.check(ok == (r.v == Accept), "readUnformatted<bool> on " + show(s) + " returned " + (ok ? "true" : "false"))) return; if (ok && !ctx.check(bv == r.val, "readUnformatted<bool> value wrong for " + show(s))) return; } }
+          if (!(r.trailingSite && ctx.known(kTrailing))) { if (!PBT_CK(ctx, ok == (r.v == Accept), "readUnformatted<bool> on " + show(s) + " returned " + (ok ? "true" : "false"))) return; if (ok && !PBT_CK(ctx, bv == r.val, "readUnformatted<bool> value wrong for " + show(s))) return; } }
     } else {
-        std::istringstream in(s); SimTK::String t; bool ok = SimTK::readUnformatted(in, t); if (!ctx.check(!ok, "readUnformatted<String> succeeded on a stream without tokens")) return;
+        std::istringstream in(s); SimTK::String t; bool ok = SimTK::readUnformatted(in, t); if (!PBT_CK(ctx, !ok, "readUnformatted<String> succeeded on a stream without tokens")) return;
     }
 }
 
